@@ -105,7 +105,10 @@ def c05_case(sw, ch, rate, W, aw, flags, tail, tail_flag, mn, mx, ms, mode, as_r
               drop_trailing_silence=bool(mode & 4), strict_min_dur=bool(mode & 2), analysis_window=float(aw),
               energy_threshold=eth_for(sw))
     try:
-        if as_region:
+        if as_region == 2:
+            # a region that itself carries a start time (e.g. one yielded by an earlier split)
+            regs = list(L["core"].split(L["AR"](data, rate, sw, ch, 2.5), **kw))
+        elif as_region:
             regs = list(L["AR"](data, rate, sw, ch).split(**kw))
         else:
             regs = list(L["core"].split(data, sr=rate, sw=sw, ch=ch, **kw))
@@ -151,7 +154,7 @@ def c05_work(task):
                     if tail and (i + stripe) % 3:
                         continue  # partial last windows: every third tuple (all tuples get every tail over the patterns)
                     cov["evaluations"] += 1
-                    msg = c05_case(sw, ch, rate, W, aw, flags, tail, tf, mn, mx, ms, mode, as_region=bool(i % 2))
+                    msg = c05_case(sw, ch, rate, W, aw, flags, tail, tf, mn, mx, ms, mode, as_region=i % 3)
                     if any(flags) or tf:
                         cov["distinct_nontrivial"] += 1
                     if msg and len(viol) < 8:
@@ -159,9 +162,63 @@ def c05_work(task):
                             sw, ch, rate, W, aw, tm.show(flags), tail, "A" if tf else "a", mn, mx, ms, mode)
                         viol.append((key, msg, {"kind": "c05", "sw": sw, "ch": ch, "rate": rate, "W": W, "aw": str(aw),
                                                 "flags": tm.show(flags), "tail": tail, "tail_flag": tf,
-                                                "tuple": [mn, mx, ms, mode], "as_region": bool(i % 2)}))
+                                                "tuple": [mn, mx, ms, mode], "as_region": i % 3}))
     cov["samples"].append({"sw": sw, "ch": ch, "samples_per_window": W, "rate": rate, "analysis_window": str(aw),
                            "patterns": "all <=%d windows + partial tails" % L})
+    return {"cov": cov, "viol": viol}
+
+
+def merges(a, b):
+    """All interleavings of a steps of generator 0 and b steps of generator 1."""
+    if a == 0:
+        yield (1,) * b
+        return
+    if b == 0:
+        yield (0,) * a
+        return
+    for m in merges(a - 1, b):
+        yield (0,) + m
+    for m in merges(a, b - 1):
+        yield (1,) + m
+
+
+def c05_interleaved(task):
+    """Two live split() generators with the same configuration, consumed in every interleaving:
+    each must still yield exactly what it yields alone (separate calls share nothing)."""
+    pats, tuples = task
+    L = lib()
+    cov = {"evaluations": 0, "distinct_nontrivial": 0, "samples": []}
+    viol = []
+    sw, ch, rate, W = 2, 1, 10, 1
+    for (mn, mx, ms, mode) in tuples:
+        kw = dict(min_dur=mn * 0.1, max_dur=mx * 0.1, max_silence=ms * 0.1, drop_trailing_silence=bool(mode & 4),
+                  strict_min_dur=bool(mode & 2), analysis_window=0.1, energy_threshold=50, sr=rate, sw=sw, ch=ch)
+        solo = {}
+        for p in pats:
+            data = coded(tm.parse(p), W, sw, ch)
+            solo[p] = [(r.start, r.data) for r in L["core"].split(data, **kw)]
+        for pa, pb in itertools.product(pats, repeat=2):
+            na, nb = len(solo[pa]) + 1, len(solo[pb]) + 1
+            for order in merges(na, nb):
+                cov["evaluations"] += 1
+                gens = [L["core"].split(coded(tm.parse(pa), W, sw, ch), **kw), L["core"].split(coded(tm.parse(pb), W, sw, ch), **kw)]
+                got = [[], []]
+                try:
+                    for g in order:
+                        r = next(gens[g], None)
+                        if r is not None:
+                            got[g].append((r.start, r.data))
+                    bad = got[0] != solo[pa] or got[1] != solo[pb]
+                    msg = None if not bad else "interleaved consumption %r of split(%s) and split(%s): starts %r / %r, alone %r / %r" % (
+                        order, pa, pb, [x[0] for x in got[0]], [x[0] for x in got[1]], [x[0] for x in solo[pa]], [x[0] for x in solo[pb]])
+                except Exception as exc:
+                    msg = "interleaved consumption raised %r" % (exc,)
+                if solo[pa] and solo[pb]:
+                    cov["distinct_nontrivial"] += 1
+                if msg and len(viol) < 4:
+                    viol.append(("interleaved a=%s b=%s order=%s tuple=%d,%d,%d,%d" % (pa, pb, "".join(map(str, order)), mn, mx, ms, mode), msg,
+                                 {"kind": "c05i", "a": pa, "b": pb, "order": list(order), "tuple": [mn, mx, ms, mode]}))
+    cov["samples"].append({"interleaved_pairs": len(pats) ** 2, "tuples": len(tuples)})
     return {"cov": cov, "viol": viol}
 
 
@@ -466,9 +523,7 @@ def split_laziness(rep, L):
 # C09
 
 
-class FakeStdin:
-    def __init__(self, data):
-        self.buffer = io.BytesIO(data)
+from .chk_sources import FakeStdin  # noqa: E402  (BytesIO, or a BufferedReader over a short-reading raw stream)
 
 
 def regions_sig(regs, rate):
@@ -546,9 +601,9 @@ def c09_work(task):
                     return core.split(util.AudioReader(data, block_dur=aw, **ap), energy_threshold=eth, use_channel=uc, **base_kw)
                 if kind == "reader_wav":
                     return core.split(util.AudioReader(wavf, block_dur=aw, large_file=True), eth=eth, uc=uc, **base_kw)
-                if kind == "stdin":
+                if kind.startswith("stdin"):
                     old = sys.stdin
-                    sys.stdin = FakeStdin(data)
+                    sys.stdin = FakeStdin(data, [int(x) for x in kind.split(":")[1].split(",")] if ":" in kind else None)
                     try:
                         return list(core.split("-", **base_kw, **long_kw, **ap))
                     finally:
@@ -556,7 +611,8 @@ def c09_work(task):
                 raise ValueError(kind)
 
             for kind in ("bytes", "region", "region_fn", "wav", "wav_path", "wav_lazy", "raw", "raw_lazy", "raw_fmt",
-                         "raw_audio_format", "buffer_source", "raw_source", "wave_source", "reader", "reader_wav", "stdin"):
+                         "raw_audio_format", "buffer_source", "raw_source", "wave_source", "reader", "reader_wav", "stdin", "stdin:1", "stdin:3",
+                         "stdin:%d,2" % (W * sw * ch - 1)):
                 cov["evaluations"] += 1
                 try:
                     got = regions_sig(run(kind), rate)
@@ -667,7 +723,10 @@ def run(prop, tier):
         rep.cov["rule"] = ("one evaluation = one split() call on position-coded audio compared region by region with the model; "
                            "non-trivial when the input holds activity; distinct by construction")
         rep.cov["bounds"] = {"windows": "<=%d + partial last window" % Lw, "tuples": len(tuples), "format_window_combos": len(combos)}
-        for part in common.pmap(c05_work, tasks):
+        ipats = ["", "A", "aA", "AaA", "AAAA", "aAAaA", "AAaaAA"] + ([] if quick else ["AaAaA", "AAAAAAA"])
+        itup = [(1, 1, 0, 0), (1, 2, 0, 0), (2, 3, 1, 0), (1, 3, 1, 4), (2, 2, 0, 2), (1, 3, 2, 6)]
+        itasks = [("i", (ipats, [t])) for t in itup]
+        for part in common.pmap(_c05_dispatch, [("w", t) for t in tasks] + itasks):
             rep.merge(part)
     elif prop == "C06":
         rep = common.Report(prop, tier, "bounded-exhaustive enumeration of (min_dur, max_dur, max_silence, window, rate) over decimal "
@@ -714,7 +773,8 @@ def run(prop, tier):
         rep = common.Report(prop, tier, "bounded-exhaustive enumeration of recordings x containers x parameter spellings x duration "
                             "tuples; every variant compared with the raw-bytes / long-name baseline")
         recs = [(2, 1, 10, 1, "AaAAaaA", 0), (1, 2, 20, 2, "aAAaA", 1), (4, 3, 30, 3, "AAaAa", 2), (2, 2, 16, 2, "AaaAAAAa", 0),
-                (1, 1, 8, 4, "AAaaAa", 3), (4, 1, 10, 1, "aAaAAAAA", 0)]
+                (1, 1, 8, 4, "AAaaAa", 3), (4, 1, 10, 1, "aAaAAAAA", 0),
+                (2, 1, 16000, 4, "AaAAaAAA", 2), (2, 2, 8000, 3, "AAAaAAaA", 0)]  # sub-millisecond sample periods
         if not quick:
             recs += [(2, 3, 10, 1, "AAAAAAAA", 0), (2, 2, 20, 2, "", 1), (1, 3, 9, 3, "aaaa", 0), (4, 2, 70, 7, "AaAaA", 5)]
         tasks = [r + (tier,) for r in recs]
@@ -730,9 +790,16 @@ def run(prop, tier):
     return rep.finish()
 
 
+def _c05_dispatch(t):
+    return c05_work(t[1]) if t[0] == "w" else c05_interleaved(t[1])
+
+
 def replay(case):
     lib()
     k = case["kind"]
+    if k == "c05i":
+        part = c05_interleaved(([case["a"], case["b"]], [tuple(case["tuple"])]))
+        return part["viol"][0][1] if part["viol"] else None
     if k == "c05":
         mn, mx, ms, mode = case["tuple"]
         return c05_case(case["sw"], case["ch"], case["rate"], case["W"], Decimal(case["aw"]), tm.parse(case["flags"]),
